@@ -79,6 +79,10 @@ func execC08(caseText string) string {
 		cmpf = func(a, b kt) int { return int(a.K - b.K) }
 	case "mergeS":
 		cmpf = func(a, b kt) int { return 7 * cmp.Compare(a.K, b.K) }
+	case "mergeA":
+		// the inputs are passed as a slice (inputs...) which the caller re-uses for other streams afterwards: the merged
+		// stream must still be the merge of the streams it was built from
+		cmpf = func(a, b kt) int { return cmp.Compare(a.K, b.K) }
 	default:
 		return "bad-case"
 	}
@@ -90,7 +94,13 @@ func execC08(caseText string) string {
 		}
 		streams = append(streams, stream.Just(l...))
 	}
-	res, err := stream.MergeSortedStreams(cmpf, streams...).Collect(context.Background())
+	merged := stream.MergeSortedStreams(cmpf, streams...)
+	if strings.TrimSpace(parts[0]) == "mergeA" {
+		for i := range streams {
+			streams[i] = stream.Just(kt{K: int64(1000 + i), T: 9000 + i})
+		}
+	}
+	res, err := merged.Collect(context.Background())
 	if err != nil {
 		return errClass(err)
 	}
@@ -115,11 +125,13 @@ func emitC08(c *Ctx, ins [][]kt) {
 	// non-trivial: at least two non-empty inputs (something to interleave)
 	c08n++
 	head := "merge"
-	switch c08n % 4 {
-	case 1:
+	switch c08n % 8 {
+	case 1, 5:
 		head = "mergeD"
 	case 3:
 		head = "mergeS"
+	case 7:
+		head = "mergeA"
 	}
 	c.Case(nonEmpty >= 2, strings.Join(append([]string{head}, parts...), " | "))
 	_ = total
